@@ -94,7 +94,11 @@ def check_case(ctx, case):
             with _tf.TemporaryDirectory(dir='/dev/shm' if os.path.isdir('/dev/shm') else None) as td_:
                 fn_ = os.path.join(td_, 'rng.txt')
                 bs_ = o.export_bootstrap(nb, save_rng=fn_)
-                saved_ = np.loadtxt(fn_, dtype=int).reshape(nb, n)
+                saved_ = np.loadtxt(fn_, dtype=int)
+                if saved_.size != nb * n:
+                    probs.append(('violation', 'boot-saved-table', 'save_rng wrote %d numbers, the table has %d samples x %d configurations' % (saved_.size, nb, n)))
+                    return probs
+                saved_ = saved_.reshape(nb, n)
                 want_ = [float(sum(fx[kk] for kk in row) / n) for row in saved_]
                 if not all(close(u, v, rtol=1e-12, scale=scale) for u, v in zip(bs_[1:], want_)):
                     probs.append(('violation', 'boot-saved-table', 'the table written by save_rng does not reproduce the exported samples'))
